@@ -93,4 +93,10 @@ CHECKS = {
         "assumptions": ["TLS 1.3 with a run-time self-signed certificate and InsecureSkipVerify (certificate validation is configuration of the callers)", "AEAD records carry one algorithm id; warning records are not judged (a client may treat them as errors)", "QUIC/SCION transport of the key exchange is not exercised"],
         "timeout_quick": 600, "timeout_thorough": 2400,
     },
+    "C11": {
+        "pkg": "c11", "shards": 8,
+        "rule": "rapid state machine of successful and lost exchanges between the real NTS client and the real IP listener through an inspecting relay.",
+        "assumptions": ["cookies are issued by the harness's conformant key-exchange server with the project's ServerCookie/EncryptWithNonce under the provider shared with the listener (i.e. exactly this project's 124-byte cookies)", "server key rotation between exchanges is covered by C12 (virtual time cannot reach goroutines blocked in network I/O)"],
+        "timeout_quick": 600, "timeout_thorough": 2400,
+    },
 }
